@@ -7,7 +7,8 @@
        ZSTD_keepCallerPosition puts the recorded position back to the caller's when the call ended below it (fix 62dea3d);
    and the check itself: a ZSTD_compressStream2 / ZSTD_compressStream call in a frame in progress whose applied input mode is
    stable is refused with stabilityCondition_notRespected unless the recorded buffer is still {NULL,0,0} (fix 9a6b24a:
-   noBufferYet) or the recorded position is the one presented (the source pointer is the one input array throughout).
+   noBufferYet) or the recorded position is the one presented (the source pointer is the one input array throughout);
+   and the two controls of the transparent-initialisation stage that apply while input is deferred (fix 0548f83).
    The two variants of the code that the repairs replaced are kept as parameters for the counter-examples of the theorem
    file.  Model only - no proofs in this file. *)
 From Coq Require Import NArith ZArith List Bool.
@@ -46,13 +47,29 @@ Definition check_refuses (v : checkver) (s : sstate) : bool :=
        (if a_null a then match v with CheckNow => false | CheckPre9a6b24a => true end
         else negb (s_epos s =? a_pos a))).
 
+(* the two controls of the transparent-initialisation stage of ZSTD_compressStream2 (since fix 0548f83 for every call made
+   while input is deferred, not only for the calls that defer again): same source pointer, and input->pos ==
+   expectedInBuffer.size.  A ZSTD_compressStream2 / ZSTD_compressStream call presents {X, ., a_pos}; the wrappers present their
+   copy of the recorded buffer, whose position is s_epos (the source pointer is then the recorded one by construction) *)
+Definition init_refuses_call (s : sstate) : bool :=
+  let a := s_a s in
+  let k := a_k a in
+  andb (is_init k) (andb (negb (lenN (k_held k) =? 0)) (orb (a_null a) (negb (a_pos a =? a_size a)))).
+Definition init_refuses_wrapper (s : sstate) : bool :=
+  let a := s_a s in
+  let k := a_k a in
+  andb (is_init k) (andb (negb (lenN (k_held k) =? 0)) (negb (s_epos s =? a_size a))).
+(* any of the three controls would refuse the caller's next call / the next wrapper call *)
+Definition refuses_any (v : checkver) (s : sstate) : bool :=
+  orb (check_refuses v s) (orb (init_refuses_call s) (init_refuses_wrapper s)).
+
 Record sout := { so_s : sstate; so_o : aout CS; so_refused : bool }.
 
 (* ZSTD_compressStream2 / ZSTD_compressStream *)
 Definition s_call_gen (stream : bool) (v : checkver) (P : kparams) (fc : fconf) (X : bytes) (s : sstate) (n cap : N) (dir : directive) : sout :=
   let a := s_a s in
   let inp := tk n (dr (a_pos a) X) in
-  if check_refuses v s then {| so_s := s; so_o := a_fail CS a AStability; so_refused := true |}
+  if orb (check_refuses v s) (init_refuses_call s) then {| so_s := s; so_o := a_fail CS a AStability; so_refused := true |}
   else
     let o := if stream then a_stream CS cs_begin compress_chunk P fc X a n cap else a_call CS cs_begin compress_chunk P fc X a n cap dir in
     match ao_ret o with
@@ -76,9 +93,10 @@ Definition wrapper_epos (kv : keepver) (s : sstate) (ko : kout CS) : N :=
   then match kv with KeepNow => base | KeepNoPos => e1 end          (* ZSTD_keepCallerPosition *)
   else e1.
 
-(* ZSTD_flushStream: never refused (it presents the recorded buffer itself) *)
+(* ZSTD_flushStream: it presents the recorded buffer itself, so only the init-stage control on the position applies *)
 Definition s_flushStream (kv : keepver) (P : kparams) (fc : fconf) (X : bytes) (s : sstate) (cap : N) : sout :=
   let a := s_a s in
+  if init_refuses_wrapper s then {| so_s := s; so_o := a_fail CS a AStability; so_refused := true |} else
   let o := a_flushStream CS cs_begin compress_chunk P fc X a cap in
   match ao_ret o with
   | None => {| so_s := s; so_o := o; so_refused := false |}
@@ -91,6 +109,7 @@ Definition s_flushStream (kv : keepver) (P : kparams) (fc : fconf) (X : bytes) (
 (* ZSTD_endStream *)
 Definition s_endStream (kv : keepver) (P : kparams) (fc : fconf) (X : bytes) (s : sstate) (cap ck : N) : sout :=
   let a := s_a s in
+  if init_refuses_wrapper s then {| so_s := s; so_o := a_fail CS a AStability; so_refused := true |} else
   let o := a_endStream CS cs_begin compress_chunk P fc X a cap ck in
   match ao_ret o with
   | None => {| so_s := s; so_o := o; so_refused := false |}
@@ -126,4 +145,5 @@ Fixpoint srun (v : checkver) (kv : keepver) (P : kparams) (X : bytes) (s : sstat
 End Stab.
 
 Arguments s_a {CS} s. Arguments s_epos {CS} s. Arguments s_new {CS}. Arguments check_refuses {CS}.
+Arguments init_refuses_call {CS}. Arguments init_refuses_wrapper {CS}. Arguments refuses_any {CS}.
 Arguments so_s {CS} s. Arguments so_o {CS} s. Arguments so_refused {CS} s. Arguments deferred {CS}.
